@@ -131,6 +131,11 @@ func Preorder(str string, visitor Visitor, opts *VisitorOptions) error {
 
 	err := tv.decodeValue()
 
+	/* the whole string must be decoded: only white space may follow the value */
+	if err == nil && skipBlank(str, tv.parser.p) >= 0 {
+		err = types.ERR_INVALID_CHAR
+	}
+
 	if optDecodeNumber {
 		tv.parser.decodeNumber(false)
 	}
